@@ -51,11 +51,11 @@ XO_NAME = {d: d.capitalize().replace("Uint", "UInt") for d in DTYPES}
 
 
 def pat(n, salt=0):
-    return bytes(((i * 37 + 11 + salt * 101) & 0xFF) for i in range(n))
+    return ((np.arange(n, dtype=np.int64) * 37 + 11 + salt * 101) & 0xFF).astype(np.uint8).tobytes()
 
 
 def payload(n):
-    return bytes(((j * 59 + 200) & 0xFF) for j in range(n))
+    return ((np.arange(n, dtype=np.int64) * 59 + 200) & 0xFF).astype(np.uint8).tobytes()
 
 
 def make(kind, cap, ctx=None):
@@ -123,6 +123,10 @@ def run_case(case):
     if var is not None and not isinstance(var, (dict, list)):
         labels.add(f"{prim}:{var}")
     nontrivial = n > 0 and o > 0
+    for lim in (4096, 65536):
+        if n > lim:
+            labels.add(f"length_over_{lim}")
+            labels.add(f"{prim}:length_over_{lim}")
     if o + n > cap and prim != "grow":
         return Outcome(True, labels=["out_of_domain"])
     buf = make(kind, cap)
@@ -425,6 +429,8 @@ def _np_source(var):
     sd, dd, shape, layout = var["sd"], var["dd"], tuple(var["shape"]), var["layout"]
     vals = var["vals"]
     cnt = int(np.prod(shape)) if len(shape) else 1
+    if var.get("pool"):  # large sources: the drawn values are a pool repeated with a stride
+        vals = [vals[(i * 3) % len(vals)] for i in range(cnt)]
     base = np.array([_val(v) for v in vals[:cnt]], dtype=sd).reshape(shape)
     exp = np.ascontiguousarray(base).astype(dd).tobytes()
     if layout == "C":
@@ -609,17 +615,26 @@ def cases(draw, tier):
         dd = draw(st.sampled_from([sd, sd] + DTYPES))
         nd = draw(st.sampled_from([1, 1, 2, 2, 3]))
         shape = [draw(st.sampled_from([0, 1, 2, 3, 4, 5])) for _ in range(nd)]
+        large = draw(st.integers(0, 9)) == 0
+        if large:
+            # thousands of items (around 4096 / 8192 / 16384 items, i.e. sources and destinations of 4 KiB .. 128 KiB)
+            shape = draw(st.sampled_from([[4097], [4100], [8193], [16400], [2, 4099], [4099, 2]]))
         cnt = int(np.prod(shape))
         layout = draw(st.sampled_from(["C", "F", "strided", "reversed", "transposed", "swapped"]))
-        vals = _exact_vals(draw, sd, dd, cnt)
+        vals = _exact_vals(draw, sd, dd, 7 if large else cnt)
         nb = cnt * np.dtype(dd).itemsize
         o = draw(st.one_of(st.integers(0, 16), st.integers(0, 200)))
-        tail = draw(st.sampled_from([0, 0, 1, 8, 50]))
-        return {"kind": kind, "cap": o + nb + tail, "off": o, "n": nb, "prim": prim,
-                "var": {"sd": sd, "dd": dd, "shape": shape, "layout": layout, "vals": vals}}
+        tail = draw(st.sampled_from([0, 0, 1, 8, 50] + ([70000] if large else [])))
+        var = {"sd": sd, "dd": dd, "shape": shape, "layout": layout, "vals": vals}
+        if large:
+            var["pool"] = 1
+        return {"kind": kind, "cap": o + nb + tail, "off": o, "n": nb, "prim": prim, "var": var}
     cap = draw(st.one_of(st.integers(0, 64), st.integers(0, big)))
-    o = draw(st.integers(0, cap))
-    n = draw(st.one_of(st.integers(0, cap - o), st.just(cap - o)))
+    if prim != "grow" and draw(st.integers(0, 9)) == 0:
+        # large transfers: lengths around 4 KiB, 64 KiB and 128 KiB (block sizes a staged copy would use), with room behind
+        cap = draw(st.sampled_from([4096, 65536, 131072, 98304])) + draw(st.sampled_from([-1, 0, 1, 13, 300])) + draw(st.sampled_from([0, 0, 70000]))
+    o = draw(st.integers(0, min(cap, 400)) if cap > 1000 else st.integers(0, cap))
+    n = draw(st.one_of(st.integers(0, cap - o), st.just(cap - o), st.sampled_from([x for x in (65537, 65536, 4097, 100000, 131073) if x <= cap - o] or [cap - o])))
     case = {"kind": kind, "cap": cap, "off": o, "n": n, "prim": prim}
     if prim == "update_from_buffer":
         case["var"] = draw(st.sampled_from(PY_SOURCES))
@@ -673,4 +688,4 @@ def budget(tier):
 
 def essential_labels(tier):
     return ["nplike_layout:F", "nplike_layout:strided", "nplike_conv:convert", "xbuffer:other_context", "xbuffer:same_buffer",
-            "update_from_buffer:npdata8", "prim:to_nplike", "prim:scalar"]
+            "update_from_buffer:npdata8", "prim:to_nplike", "prim:scalar", "update_from_xbuffer:length_over_65536", "update_from_nplike:length_over_4096"]
